@@ -127,3 +127,9 @@ func VerifExecuteTemplate(tmpl *template.Template, extras map[string]string, sta
 
 // VerifHelperFunctionMap is the function map offered to templates.
 func VerifHelperFunctionMap() template.FuncMap { return helperFunctionMap }
+
+// VerifRefresh runs one refresh of the group records from storage's listings exactly as the refresh ticker does
+// (the cluster-list request is sent; the replies are processed by the goroutines it spawns).
+func (nc *Coordinator) VerifRefresh() {
+	nc.sendClusterRequest()
+}
